@@ -25,6 +25,7 @@ INVARIANT P_reject
 INVARIANT P_attempts
 INVARIANT P_errors
 INVARIANT P_eof
+INVARIANT P_typed
 INVARIANT P_confirm
 INVARIANT A_prompts
 INVARIANT A_object
